@@ -1,4 +1,5 @@
 import NutilsVerif.Proofs.Tensor
+import NutilsVerif.Proofs.TensorLaws
 import NutilsVerif.Model.Expr
 /-!
 # C01 — simplification preserves values: laws of the specification semantics
@@ -28,5 +29,505 @@ theorem zipWith_ofFn {α : Type} [Inhabited α] (op : α → α → α) (shape :
   rw [get_ofFn _ _ idx hi', get_ofFn _ _ idx hi', get_ofFn _ _ idx hi', get_ofFn _ _ idx hi']
 
 example : inBox [2, 3] [1, 2] = true := by decide
+
+/-!
+## Laws
+
+Conventions.  A hypothesis `t.shape = s ++ [n]` (or `s ++ [a, b]`, `s ++ dm.shape`) only names the trailing axes
+the operation acts on; `s` is an arbitrary list of leading axis lengths, so each law covers tensors of every
+rank and every axis length (zero lengths included).  Arithmetic is abstract: `op`, `add`, `mul` are arbitrary
+binary operations on an arbitrary carrier `α` and the algebraic facts a law needs are explicit hypotheses
+(`IsCommMonoid add zero`, neutrality, distributivity); they hold for `(+, 0, *, 1)` of ℤ, ℚ and of the polynomial
+carrier of the evaluator.  `a ≃ₜ b` is: equal shapes and equal entries at every multi-index of the box.
+-/
+
+section laws
+variable {α : Type} [Inhabited α]
+
+/-! ### 1. TakeDiag of Diagonalize / InsertAxis -/
+
+/-- `Diagonalize._takediag` (axis1 = ndim-2): `TakeDiag(Diagonalize(f)) = f`.  Any fill value `z`. -/
+theorem takeDiag_diagonalize (z : α) (t : Tensor α) {s : List Nat} {n : Nat} (hs : t.shape = s ++ [n]) :
+    takeDiag (diagonalize z t) ≃ₜ t := by
+  have hd := shape_diagonalize z hs
+  refine equiv_snoc (shape_takeDiag hd) hs fun pre k hp hk => ?_
+  rw [get_takeDiag hd hp hk, get_diagonalize z hs hp hk hk, if_pos rfl]
+
+/-- the same with the evaluator's guard (`Diagonalize` needs `ndim > 0`) as hypothesis -/
+theorem takeDiag_diagonalize' (z : α) (t : Tensor α) (h : t.shape ≠ []) : takeDiag (diagonalize z t) ≃ₜ t :=
+  takeDiag_diagonalize z t (shape_snoc_of_ne_nil h)
+
+/-- `InsertAxis._takediag` (axis2 = inserted axis, axis1 = ndim-2): `TakeDiag(InsertAxis(f, n)) = f` when the last
+axis of `f` has length `n` (`Transpose.to_end(f, ndim-2)` is `f`). -/
+theorem takeDiag_insertAxis (t : Tensor α) {s : List Nat} {n : Nat} (hs : t.shape = s ++ [n]) :
+    takeDiag (insertAxis t n) ≃ₜ t := by
+  have hi : (insertAxis t n).shape = s ++ [n, n] := by show t.shape ++ [n] = _; rw [hs]; simp
+  refine equiv_snoc (shape_takeDiag hi) hs fun pre k hp hk => ?_
+  rw [get_takeDiag hi hp hk, show pre ++ [k, k] = (pre ++ [k]) ++ [k] by simp,
+    get_insertAxis t n (hs ▸ inBox_snoc hp hk) hk]
+
+/-- `TakeDiag(InsertAxis(InsertAxis(f, n), n)) = InsertAxis(f, n)` -/
+theorem takeDiag_insertAxis_insertAxis (t : Tensor α) (n : Nat) :
+    takeDiag (insertAxis (insertAxis t n) n) ≃ₜ insertAxis t n :=
+  takeDiag_insertAxis (insertAxis t n) (s := t.shape) rfl
+
+/-! ### 2. Sum / Product of InsertAxis -/
+
+/-- `InsertAxis._sum` (last axis) and `InsertAxis._product`, generic form: reducing the inserted axis with `op`
+from `u` gives the `n`-fold repetition `nfold op u x n = (…((u ∘ x) ∘ x)…) ∘ x` of every entry. -/
+theorem reduceLast_insertAxis (op : α → α → α) (u : α) (t : Tensor α) (n : Nat) :
+    reduceLast op u (insertAxis t n) ≃ₜ ofFn t.shape fun idx => nfold op u (t.get idx) n := by
+  have hi : (insertAxis t n).shape = t.shape ++ [n] := rfl
+  refine equiv_of_get (shape_reduceLast op u hi) rfl fun idx h => ?_
+  rw [get_reduceLast op u hi h, get_ofFn _ _ _ h]
+  exact foldl_congr_mem _ _ fun acc k hk => by rw [get_insertAxis t n h (List.mem_range.1 hk)]
+
+/-- `InsertAxis._sum`: `Sum(InsertAxis(f, n)) = f * n`, for every carrier with a scalar embedding `c : ℕ → α`
+satisfying `x * c 0 = 0` and `x * c (k+1) = x * c k + x` (true in every semiring with `c = Nat.cast`). -/
+theorem sum_insertAxis (add mul : α → α → α) (zero : α) (c : Nat → α) (h0 : ∀ x, mul x (c 0) = zero)
+    (hsucc : ∀ x k, mul x (c (k+1)) = add (mul x (c k)) x) (t : Tensor α) (n : Nat) :
+    reduceLast add zero (insertAxis t n) ≃ₜ zipWith mul t (full t.shape (c n)) := by
+  refine (reduceLast_insertAxis add zero t n).trans (equiv_of_get (s := t.shape) rfl rfl fun idx h => ?_)
+  rw [get_ofFn _ _ _ h, get_zipWith mul t _ h, get_full _ _ h]
+  induction n with
+  | zero => rw [nfold_zero, h0]
+  | succ n ih => rw [nfold_succ, ih, hsucc]
+
+/-- `InsertAxis._product`: `Product(InsertAxis(f, n)) = f ** n`, for every power function with `x^0 = 1`,
+`x^(k+1) = x^k * x`. -/
+theorem product_insertAxis (mul : α → α → α) (one : α) (pw : α → Nat → α) (h0 : ∀ x, pw x 0 = one)
+    (hsucc : ∀ x k, pw x (k+1) = mul (pw x k) x) (t : Tensor α) (n : Nat) :
+    reduceLast mul one (insertAxis t n) ≃ₜ ofFn t.shape fun idx => pw (t.get idx) n := by
+  refine (reduceLast_insertAxis mul one t n).trans (ofFn_congr _ _ _ fun idx _ => ?_)
+  induction n with
+  | zero => rw [nfold_zero, h0]
+  | succ n ih => rw [nfold_succ, ih, hsucc]
+
+/-! ### 3. Sum of Diagonalize -/
+
+/-- `Diagonalize._sum` (axis = ndim-1): `Sum(Diagonalize(f)) = f`, whenever the fill value `z` is right-neutral
+for `op` and the start value `u` is left-neutral (both are `0` for `Sum`). -/
+theorem reduceLast_diagonalize (op : α → α → α) (u z : α) (hz : ∀ a, op a z = a) (hu : ∀ a, op u a = a)
+    (t : Tensor α) {s : List Nat} {n : Nat} (hs : t.shape = s ++ [n]) :
+    reduceLast op u (diagonalize z t) ≃ₜ t := by
+  have hd : (diagonalize z t).shape = (s ++ [n]) ++ [n] := by rw [shape_diagonalize z hs]; simp
+  refine equiv_snoc (shape_reduceLast op u hd) hs fun pre i hp hi => ?_
+  rw [get_reduceLast op u hd (inBox_snoc hp hi)]
+  rw [foldl_congr_mem (g := fun acc k => op acc (if i = k then t.get (pre ++ [i]) else z)) _ _
+    (fun acc k hk => by
+      rw [show pre ++ [i] ++ [k] = pre ++ [i, k] by simp, get_diagonalize z hs hp hi (List.mem_range.1 hk)])]
+  exact foldl_single op u z _ hz (hu _) n i hi
+
+/-! ### 5. Take -/
+
+/-- `InsertAxis._take` (axis = inserted axis): `Take(InsertAxis(f, n), index) = appendaxes(f, index.shape)`;
+the indices must be valid (`< n`), as `Take` requires. -/
+theorem take_insertAxis (t : Tensor α) (n : Nat) (ind : Tensor Nat)
+    (hind : ∀ j, inBox ind.shape j = true → ind.get j < n) :
+    take (insertAxis t n) ind ≃ₜ appendAxes t ind.shape := by
+  have hi : (insertAxis t n).shape = t.shape ++ [n] := rfl
+  refine equiv_append (shape_take hi ind) rfl fun pre suf hp hj => ?_
+  rw [get_take hi ind hp hj, get_insertAxis t n hp (hind suf hj), get_appendAxes t _ hp hj]
+
+/-- `Add._take`, `Multiply._take`, `Power._take`, `Pointwise._take`: `Take` commutes with pointwise operations. -/
+theorem take_zipWith (f : α → α → α) (a b : Tensor α) {s : List Nat} {n : Nat} (ha : a.shape = s ++ [n])
+    (hb : b.shape = s ++ [n]) (ind : Tensor Nat) (hind : ∀ j, inBox ind.shape j = true → ind.get j < n) :
+    take (zipWith f a b) ind ≃ₜ zipWith f (take a ind) (take b ind) := by
+  have hz : (zipWith f a b).shape = s ++ [n] := ha
+  refine equiv_append (shape_take hz ind) (shape_take ha ind) fun pre suf hp hj => ?_
+  rw [get_take hz ind hp hj, get_zipWith f a b (ha ▸ inBox_snoc hp (hind suf hj)),
+    get_zipWith f _ _ (shape_take ha ind ▸ inBox_app hp hj), get_take ha ind hp hj, get_take hb ind hp hj]
+
+/-- `Take._take` (axis ≥ func.ndim-1, here the last axis of the index array):
+`Take(Take(f, i), j) = Take(f, Take(i, j))`. -/
+theorem take_take (t : Tensor α) {s : List Nat} {n : Nat} (hs : t.shape = s ++ [n]) (i j : Tensor Nat)
+    {si : List Nat} {m : Nat} (hi : i.shape = si ++ [m]) (hj : ∀ q, inBox j.shape q = true → j.get q < m) :
+    take (take t i) j ≃ₜ take t (take i j) := by
+  have h1 : (take t i).shape = (s ++ si) ++ [m] := by rw [shape_take hs, hi]; simp
+  have h2 : (take i j).shape = si ++ j.shape := shape_take hi j
+  refine equiv_append (s := s ++ si) (s' := j.shape) (shape_take h1 j) (by rw [shape_take hs, h2]; simp)
+    fun pre q hp hq => ?_
+  obtain ⟨p1, p2, rfl, hp1, hp2⟩ := inBox_split hp
+  rw [get_take h1 j hp hq, List.append_assoc, List.append_assoc,
+    get_take hs i hp1 (hi ▸ inBox_snoc hp2 (hj q hq)),
+    get_take hs (take i j) hp1 (h2 ▸ inBox_app hp2 hq), get_take hi j hp2 hq]
+
+/-! ### 6. Ravel / Unravel -/
+
+/-- `Ravel._unravel` (axis = ndim-1, shape equal to the ravelled axes): `Unravel(Ravel(f), a, b) = f`.
+No positivity hypothesis is needed: with `a = 0` or `b = 0` both sides are empty. -/
+theorem unravel_ravel (t : Tensor α) {s : List Nat} {a b : Nat} (hs : t.shape = s ++ [a, b]) :
+    unravel (ravel t) a b ≃ₜ t := by
+  have hr := shape_ravel hs
+  refine equiv_snoc2 (shape_unravel hr a b) hs fun pre i j hp hi hj => ?_
+  have hk : i * b + j < a * b := by
+    calc i * b + j < i * b + b := by omega
+      _ = (i + 1) * b := by rw [Nat.add_mul, Nat.one_mul]
+      _ ≤ a * b := Nat.mul_le_mul_right _ hi
+  have hb : 0 < b := by omega
+  rw [get_unravel hr a b hp hi hj, get_ravel hs hp hk]
+  have h1 : (i * b + j) / b = i := by rw [Nat.mul_comm, Nat.mul_add_div hb, Nat.div_eq_of_lt hj]; simp
+  have h2 : (i * b + j) % b = j := by rw [Nat.mul_comm, Nat.mul_add_mod, Nat.mod_eq_of_lt hj]
+  rw [h1, h2]
+
+/-- `Ravel(Unravel(f, a, b)) = f` (the inverse direction; used by `Ravel._add`, `Ravel._multiply`, `unravel` of a
+`Ravel` with matching shape).  Holds for all `a`, `b` with `a * b` the last axis length. -/
+theorem ravel_unravel (t : Tensor α) {s : List Nat} {a b : Nat} (hs : t.shape = s ++ [a * b]) :
+    ravel (unravel t a b) ≃ₜ t := by
+  have hu := shape_unravel hs a b
+  refine equiv_snoc (shape_ravel hu) hs fun pre k hp hk => ?_
+  have hb : 0 < b := by
+    cases b with
+    | zero => simp at hk
+    | succ b => omega
+  have hdiv : k / b < a := (Nat.div_lt_iff_lt_mul hb).2 hk
+  rw [get_ravel hu hp hk, get_unravel hs a b hp hdiv (Nat.mod_lt _ hb), Nat.div_add_mod' k b]
+
+/-- `InsertAxis._unravel` (axis = inserted axis): `Unravel(InsertAxis(f, a*b), a, b) = InsertAxis(InsertAxis(f, a), b)` -/
+theorem unravel_insertAxis (t : Tensor α) (a b : Nat) :
+    unravel (insertAxis t (a * b)) a b ≃ₜ insertAxis (insertAxis t a) b := by
+  have hi : (insertAxis t (a * b)).shape = t.shape ++ [a * b] := rfl
+  refine equiv_snoc2 (shape_unravel hi a b) (by show t.shape ++ [a] ++ [b] = _; simp) fun pre i j hp hi' hj => ?_
+  have hk : i * b + j < a * b := by
+    calc i * b + j < i * b + b := by omega
+      _ = (i + 1) * b := by rw [Nat.add_mul, Nat.one_mul]
+      _ ≤ a * b := Nat.mul_le_mul_right _ hi'
+  rw [get_unravel hi a b hp hi' hj, get_insertAxis t _ hp hk, show pre ++ [i, j] = (pre ++ [i]) ++ [j] by simp,
+    get_insertAxis (insertAxis t a) b (inBox_snoc hp hi') hj, get_insertAxis t a hp hi']
+
+/-- `Add._unravel`, `Multiply._unravel`, `Power._unravel`, `Pointwise._unravel`: `Unravel` commutes with pointwise
+operations. -/
+theorem unravel_zipWith (f : α → α → α) (x y : Tensor α) {s : List Nat} {m : Nat} (hx : x.shape = s ++ [m])
+    (hy : y.shape = s ++ [m]) (a b : Nat) (hm : m = a * b) :
+    unravel (zipWith f x y) a b ≃ₜ zipWith f (unravel x a b) (unravel y a b) := by
+  have hz : (zipWith f x y).shape = s ++ [m] := hx
+  refine equiv_snoc2 (shape_unravel hz a b) (shape_unravel hx a b) fun pre i j hp hi hj => ?_
+  have hk : i * b + j < m := by
+    rw [hm]
+    calc i * b + j < i * b + b := by omega
+      _ = (i + 1) * b := by rw [Nat.add_mul, Nat.one_mul]
+      _ ≤ a * b := Nat.mul_le_mul_right _ hi
+  rw [get_unravel hz a b hp hi hj, get_zipWith f x y (hx ▸ inBox_snoc hp hk),
+    get_zipWith f _ _ (shape_unravel hx a b ▸ inBox_snoc2 hp hi hj), get_unravel hx a b hp hi hj,
+    get_unravel hy a b hp hi hj]
+
+/-- `Ravel._multiply` (both factors `Ravel`), `Ravel._power`, `Ravel._sign`-style: `Ravel` commutes with pointwise
+operations. -/
+theorem ravel_zipWith (f : α → α → α) (x y : Tensor α) {s : List Nat} {a b : Nat} (hx : x.shape = s ++ [a, b])
+    (hy : y.shape = s ++ [a, b]) : zipWith f (ravel x) (ravel y) ≃ₜ ravel (zipWith f x y) := by
+  have hz : (zipWith f x y).shape = s ++ [a, b] := hx
+  refine equiv_snoc (shape_ravel hx) (shape_ravel hz) fun pre k hp hk => ?_
+  have hb : 0 < b := by
+    cases b with
+    | zero => simp at hk
+    | succ b => omega
+  have hdiv : k / b < a := (Nat.div_lt_iff_lt_mul hb).2 hk
+  rw [get_zipWith f _ _ (shape_ravel hx ▸ inBox_snoc hp hk), get_ravel hx hp hk, get_ravel hy hp hk,
+    get_ravel hz hp hk, get_zipWith f x y (hx ▸ inBox_snoc2 hp hdiv (Nat.mod_lt _ hb))]
+
+/-- `Ravel._add`, `Ravel._multiply` (general case): `Ravel(f) ∘ g = Ravel(f ∘ Unravel(g, a, b))`. -/
+theorem zipWith_ravel_left (f : α → α → α) (x y : Tensor α) {s : List Nat} {a b : Nat}
+    (hx : x.shape = s ++ [a, b]) (hy : y.shape = s ++ [a * b]) :
+    zipWith f (ravel x) y ≃ₜ ravel (zipWith f x (unravel y a b)) := by
+  have h1 : zipWith f (ravel x) y ≃ₜ zipWith f (ravel x) (ravel (unravel y a b)) := by
+    refine equiv_of_get (shape_ravel hx) (shape_ravel hx) fun idx h => ?_
+    rw [get_zipWith f _ _ (shape_ravel hx ▸ h), get_zipWith f _ _ (shape_ravel hx ▸ h)]
+    rw [(ravel_unravel y hy).2 idx (by rw [shape_ravel (shape_unravel hy a b)]; exact h)]
+  exact h1.trans (ravel_zipWith f x (unravel y a b) hx (shape_unravel hy a b))
+
+/-! ### 4. Transpose -/
+
+/-- `Transpose._transpose` (general case; also `Transpose._optimized_for_numpy`):
+`Transpose(Transpose(f, p), q) = Transpose(f, [p[i] for i in q])`, for permutations `p`, `q` of the axes. -/
+theorem transpose_transpose (t : Tensor α) (p q : List Nat) (hp : IsPerm p t.shape.length)
+    (hq : IsPerm q t.shape.length) :
+    transpose (transpose t p) q ≃ₜ transpose t (q.map fun i => p.getD i 0) := by
+  have hn : (transpose t p).shape.length = t.shape.length := by rw [shape_transpose]; simp [hp.length]
+  have hshape : (transpose (transpose t p) q).shape = (transpose t (q.map fun i => p.getD i 0)).shape := by
+    rw [shape_transpose, shape_transpose, shape_transpose, List.map_map]
+    apply List.map_congr_left
+    intro a ha
+    exact getD_map_of_lt _ (by rw [hp.length]; exact hq.mem_iff.1 ha)
+  refine ⟨hshape, fun idx h => ?_⟩
+  have h1 : inBox (q.map fun a => (transpose t p).shape.getD a 0) idx = true := h
+  have h2 : inBox ((q.map fun i => p.getD i 0).map fun a => t.shape.getD a 0) idx = true := by
+    rw [← shape_transpose, ← hshape]; exact h
+  have hq' : IsPerm q (transpose t p).shape.length := by rw [hn]; exact hq
+  have h3 : inBox (p.map fun a => t.shape.getD a 0) (transposeSrc q (transpose t p).shape.length idx) = true :=
+    inBox_transposeSrc hq' h1
+  rw [get_transpose _ q h1, get_transpose _ _ h2, get_transpose t p h3, hn]
+  congr 1
+  show (List.range t.shape.length).map _ = (List.range t.shape.length).map _
+  apply List.map_congr_left
+  intro b hb
+  have hb := List.mem_range.1 hb
+  rw [getD_transposeSrc q idx (hp.idxOf_lt hb), idxOf_map_perm hp hb q fun x hx => hq.mem_iff.1 hx]
+
+/-- `Transpose` with the identity permutation is the identity (why `transpose()` drops trivial axes, and the
+end point of `Transpose._transpose` with `axes == _invaxes`). -/
+theorem transpose_id (t : Tensor α) : transpose t (List.range t.shape.length) ≃ₜ t := by
+  refine ⟨map_getD_range t.shape, fun idx h => ?_⟩
+  have h' : inBox t.shape idx = true := by rw [← map_getD_range t.shape]; exact h
+  rw [get_transpose t _ (by rw [map_getD_range]; exact h'), transposeSrc_range (inBox_length h')]
+
+/-- `Transpose._transpose` with `axes == self._invaxes`: `Transpose(Transpose(f, p), p⁻¹) = f`. -/
+theorem transpose_transpose_inv (t : Tensor α) (p q : List Nat) (hp : IsPerm p t.shape.length)
+    (hq : IsPerm q t.shape.length) (hinv : (q.map fun i => p.getD i 0) = List.range t.shape.length) :
+    transpose (transpose t p) q ≃ₜ t :=
+  (transpose_transpose t p q hp hq).trans (hinv ▸ transpose_id t)
+
+/-- `Transpose._add`, `Transpose._multiply`, `Transpose._power`, `Transpose._sign`: pointwise operations commute
+with `Transpose`. -/
+theorem transpose_zipWith (f : α → α → α) (a b : Tensor α) (hab : a.shape = b.shape) (p : List Nat)
+    (hp : IsPerm p a.shape.length) :
+    zipWith f (transpose a p) (transpose b p) ≃ₜ transpose (zipWith f a b) p := by
+  refine ⟨rfl, fun idx h => ?_⟩
+  have h1 : inBox (p.map fun x => a.shape.getD x 0) idx = true := h
+  have hsrc := inBox_transposeSrc hp h1
+  rw [get_zipWith f (transpose a p) (transpose b p) h1, get_transpose a p h1, get_transpose b p (hab ▸ h1), get_transpose (zipWith f a b) p h1,
+    ← hab]
+  exact (get_zipWith f a b hsrc).symm
+
+/-! ### 7. Inflate -/
+
+/-- `Inflate._add` (equal dofmaps), read right to left also the `_inflations` splitting of a sum:
+`Inflate(f, d, n) + Inflate(g, d, n) = Inflate(f + g, d, n)`. -/
+theorem inflate_zipWith {add : α → α → α} {z : α} (h : IsCommMonoid add z) (a b : Tensor α) (dm : Tensor Nat)
+    (len : Nat) {s : List Nat} (ha : a.shape = s ++ dm.shape) (hb : b.shape = s ++ dm.shape) :
+    zipWith add (inflate add z a dm len) (inflate add z b dm len) ≃ₜ inflate add z (zipWith add a b) dm len := by
+  have hz : (zipWith add a b).shape = s ++ dm.shape := ha
+  have hia := shape_inflate add z dm len ha
+  refine equiv_snoc hia (shape_inflate add z dm len hz) fun pre k hp hk => ?_
+  rw [get_zipWith add _ _ (hia ▸ inBox_snoc hp hk), get_inflate add z dm len ha hp hk,
+    get_inflate add z dm len hb hp hk, get_inflate add z dm len hz hp hk,
+    foldl_cond_eq_fsum h (fun d => dm.get d == k) (fun d => a.get (pre ++ d)),
+    foldl_cond_eq_fsum h (fun d => dm.get d == k) (fun d => b.get (pre ++ d)),
+    foldl_cond_eq_fsum h (fun d => dm.get d == k) (fun d => (zipWith add a b).get (pre ++ d)),
+    ← fsum_add_distrib h]
+  refine fsum_congr _ fun d hd => ?_
+  rw [get_zipWith add a b (ha ▸ inBox_app hp (mem_indices hd))]
+  by_cases c : (dm.get d == k) = true <;> simp [c, h.zero_add]
+
+/-- `Zeros._inflate`: `Inflate(Zeros, d, n) = Zeros` (needs only `0 + 0 = 0`). -/
+theorem inflate_full_zero (add : α → α → α) (z : α) (hz : add z z = z) (s : List Nat) (dm : Tensor Nat)
+    (len : Nat) : inflate add z (full (s ++ dm.shape) z) dm len ≃ₜ full (s ++ [len]) z := by
+  have hs : (full (s ++ dm.shape) z).shape = s ++ dm.shape := rfl
+  refine equiv_snoc (shape_inflate add z dm len hs) rfl fun pre k hp hk => ?_
+  rw [get_inflate add z dm len hs hp hk, get_full _ _ (inBox_snoc hp hk)]
+  exact foldl_cond_zero add z hz _ _ _ fun d hd => get_full _ _ (inBox_app hp (mem_indices hd))
+
+/-- `Inflate._sum` (axis = inflated axis), summation form: summing the inflated axis gives the sum of *all* entries
+along the dofmap axes, provided every dof is in range (`Inflate` requires `dofmap < length`). -/
+theorem sum_inflate_fsum {add : α → α → α} {z : α} (h : IsCommMonoid add z) (t : Tensor α) (dm : Tensor Nat)
+    (len : Nat) {s : List Nat} (hs : t.shape = s ++ dm.shape)
+    (hdm : ∀ d, inBox dm.shape d = true → dm.get d < len) :
+    reduceLast add z (inflate add z t dm len) ≃ₜ
+      ofFn s fun pre => fsum add z (indices dm.shape) fun d => t.get (pre ++ d) := by
+  have hi := shape_inflate add z dm len hs
+  refine equiv_of_get (s := s) (shape_reduceLast add z hi) rfl fun pre hp => ?_
+  rw [get_reduceLast add z hi hp, get_ofFn _ _ _ hp]
+  show fsum add z (List.range len) (fun k => (inflate add z t dm len).get (pre ++ [k])) = _
+  rw [fsum_congr (g := fun k => fsum add z (indices dm.shape) fun d => if dm.get d = k then t.get (pre ++ d) else z)
+    _ (fun k hk => by
+      rw [get_inflate add z dm len hs hp (List.mem_range.1 hk),
+        foldl_cond_eq_fsum h (fun d => dm.get d == k) (fun d => t.get (pre ++ d))]
+      simp only [beq_iff_eq])]
+  rw [fsum_swap h]
+  exact fsum_congr _ fun d hd => fsum_single h _ (hdm d (mem_indices hd))
+
+/-- `Inflate._sum` (axis = inflated axis) as the rule writes it: `Sum(Inflate(f, d, n)) = Sum(…Sum(f)…)` with one
+`Sum` per dofmap axis. -/
+theorem sum_inflate {add : α → α → α} {z : α} (h : IsCommMonoid add z) (t : Tensor α) (dm : Tensor Nat)
+    (len : Nat) {s : List Nat} (hs : t.shape = s ++ dm.shape)
+    (hdm : ∀ d, inBox dm.shape d = true → dm.get d < len) :
+    reduceLast add z (inflate add z t dm len) ≃ₜ reduceLastN add z dm.shape.length t :=
+  (sum_inflate_fsum h t dm len hs hdm).trans (reduceLastN_eq_fsum h s _ dm.shape t rfl hs).symm
+
+/-! ### 8. pointwise operations and InsertAxis; Sum of a product with an inserted factor -/
+
+/-- `InsertAxis._add`, `InsertAxis._multiply`, `InsertAxis._power` (both operands constant along the last axis;
+the rule finds this through `unalign`): `InsertAxis(f, n) ∘ InsertAxis(g, n) = InsertAxis(f ∘ g, n)`. -/
+theorem zipWith_insertAxis (f : α → α → α) (a b : Tensor α) (n : Nat) (hab : a.shape = b.shape) :
+    zipWith f (insertAxis a n) (insertAxis b n) ≃ₜ insertAxis (zipWith f a b) n := by
+  refine equiv_snoc (s := a.shape) (n := n) rfl rfl fun pre k hp hk => ?_
+  have hin : inBox (insertAxis a n).shape (pre ++ [k]) = true := inBox_snoc hp hk
+  rw [get_zipWith f _ _ hin, get_insertAxis a n hp hk, get_insertAxis b n (hab ▸ hp) hk,
+    get_insertAxis (zipWith f a b) n hp hk, get_zipWith f a b hp]
+
+/-- `Multiply._sum`: a factor that does not vary along the summed axis moves out of the sum,
+`Sum(f * InsertAxis(c, n)) = Sum(f) * c`; needs right distributivity and `0 * w = 0`. -/
+theorem sum_mul_insertAxis (add mul : α → α → α) (z : α)
+    (hd : ∀ x y w, mul (add x y) w = add (mul x w) (mul y w)) (h0 : ∀ w, mul z w = z)
+    (a c : Tensor α) {n : Nat} (ha : a.shape = c.shape ++ [n]) :
+    reduceLast add z (zipWith mul a (insertAxis c n)) ≃ₜ zipWith mul (reduceLast add z a) c := by
+  have hz : (zipWith mul a (insertAxis c n)).shape = c.shape ++ [n] := ha
+  have hr := shape_reduceLast add z ha
+  refine equiv_of_get (s := c.shape) (shape_reduceLast add z hz) hr fun pre hp => ?_
+  rw [get_reduceLast add z hz hp, get_zipWith mul _ _ (hr ▸ hp), get_reduceLast add z ha hp,
+    ← foldl_mul_right add mul hd (fun k => a.get (pre ++ [k])) (c.get pre), h0]
+  exact foldl_congr_mem _ _ fun acc k hk => by
+    have hk := List.mem_range.1 hk
+    rw [get_zipWith mul a _ (ha ▸ inBox_snoc hp hk), get_insertAxis c n hp hk]
+
+/-! ### 9. TakeDiag / Sum of pointwise operations -/
+
+/-- `Add._takediag`, `Multiply._takediag`, `Power._takediag`, `Pointwise._takediag`: `TakeDiag` commutes with
+pointwise operations. -/
+theorem takeDiag_zipWith (f : α → α → α) (a b : Tensor α) {s : List Nat} {n : Nat} (ha : a.shape = s ++ [n, n])
+    (hb : b.shape = s ++ [n, n]) : takeDiag (zipWith f a b) ≃ₜ zipWith f (takeDiag a) (takeDiag b) := by
+  have hz : (zipWith f a b).shape = s ++ [n, n] := ha
+  refine equiv_snoc (shape_takeDiag hz) (shape_takeDiag ha) fun pre k hp hk => ?_
+  rw [get_takeDiag hz hp hk, get_zipWith f a b (ha ▸ inBox_snoc2 hp hk hk),
+    get_zipWith f _ _ (shape_takeDiag ha ▸ inBox_snoc hp hk), get_takeDiag ha hp hk, get_takeDiag hb hp hk]
+
+/-- `Add._sum`: `Sum(f + g) = Sum(f) + Sum(g)` (commutative monoid). -/
+theorem reduceLast_zipWith_add {add : α → α → α} {z : α} (h : IsCommMonoid add z) (a b : Tensor α)
+    {s : List Nat} {n : Nat} (ha : a.shape = s ++ [n]) (hb : b.shape = s ++ [n]) :
+    reduceLast add z (zipWith add a b) ≃ₜ zipWith add (reduceLast add z a) (reduceLast add z b) := by
+  have hz : (zipWith add a b).shape = s ++ [n] := ha
+  have hr := shape_reduceLast add z ha
+  refine equiv_of_get (s := s) (shape_reduceLast add z hz) hr fun pre hp => ?_
+  rw [get_reduceLast add z hz hp, get_zipWith add _ _ (hr ▸ hp), get_reduceLast add z ha hp,
+    get_reduceLast add z hb hp]
+  show fsum add z (List.range n) (fun k => (zipWith add a b).get (pre ++ [k])) = _
+  rw [fsum_congr (g := fun k => add (a.get (pre ++ [k])) (b.get (pre ++ [k]))) _ (fun k hk =>
+    get_zipWith add a b (ha ▸ inBox_snoc hp (List.mem_range.1 hk)))]
+  exact fsum_add_distrib h _ _ _
+
+/-- `Ravel._sum` (axis = ravelled axis) and `Ravel._product`: `Sum(Ravel(f)) = Sum(Sum(f))` (commutative monoid;
+with `(*, 1)` it is `Product(Ravel(f)) = Product(Product(f))`). -/
+theorem reduceLast_ravel {add : α → α → α} {z : α} (h : IsCommMonoid add z) (t : Tensor α) {s : List Nat}
+    {a b : Nat} (hs : t.shape = s ++ [a, b]) :
+    reduceLast add z (ravel t) ≃ₜ reduceLast add z (reduceLast add z t) := by
+  have hr := shape_ravel hs
+  have hs' : t.shape = (s ++ [a]) ++ [b] := by rw [hs]; simp
+  have h1 := shape_reduceLast add z hs'
+  refine equiv_of_get (s := s) (shape_reduceLast add z hr) (shape_reduceLast add z h1) fun pre hp => ?_
+  rw [get_reduceLast add z hr hp, get_reduceLast add z h1 hp]
+  show fsum add z (List.range (a * b)) (fun k => (ravel t).get (pre ++ [k])) =
+    fsum add z (List.range a) (fun i => (reduceLast add z t).get (pre ++ [i]))
+  rw [fsum_congr (g := fun k => t.get (pre ++ [k / b, k % b])) _ (fun k hk =>
+      get_ravel hs hp (List.mem_range.1 hk)),
+    fsum_range_mul h (fun i j => t.get (pre ++ [i, j])) b a]
+  refine fsum_congr _ fun i hi => ?_
+  rw [get_reduceLast add z hs' (inBox_snoc hp (List.mem_range.1 hi))]
+  simp only [List.append_assoc]
+  rfl
+
+/-! ### 10. concatenation and slices -/
+
+/-- `_TakeSlice` of a `LoopConcatenate` at a part's offset gives back that part: with `parts = ps ++ p :: qs` and
+offset = total last-axis length of `ps`. -/
+theorem sliceLast_concatLast (ps : List (Tensor α)) (p : Tensor α) (qs : List (Tensor α)) {pre : List Nat}
+    {n : Nat} (hp : p.shape = pre ++ [n]) :
+    sliceLast (concatLast (ps ++ p :: qs) pre) ((ps.map fun q => q.shape.getLastD 0).sum) n ≃ₜ p := by
+  have hc := shape_concatLast (ps ++ p :: qs) pre
+  refine equiv_snoc (shape_sliceLast hc _ n) hp fun i k hi hk => ?_
+  rw [get_sliceLast hc _ n hi hk, Nat.add_comm,
+    get_concatLast ps p qs pre hi (by rw [hp, List.getLastD_concat]; exact hk)]
+
+/-- concatenating the two slices `[0, a)` and `[a, a+b)` of the last axis restores the tensor (the loop
+concatenation of `_TakeSlice`s that tile the axis). -/
+theorem concatLast_sliceLast (t : Tensor α) {pre : List Nat} {a b : Nat} (hs : t.shape = pre ++ [a + b]) :
+    concatLast [sliceLast t 0 a, sliceLast t a b] pre ≃ₜ t := by
+  have h1 := shape_sliceLast hs 0 a
+  have h2 := shape_sliceLast hs a b
+  have hl1 : (sliceLast t 0 a).shape.getLastD 0 = a := by rw [h1, List.getLastD_concat]
+  have hl2 : (sliceLast t a b).shape.getLastD 0 = b := by rw [h2, List.getLastD_concat]
+  have hc : (concatLast [sliceLast t 0 a, sliceLast t a b] pre).shape = pre ++ [a + b] := by
+    rw [shape_concatLast]; simp only [List.map_cons, List.map_nil, List.sum_cons, List.sum_nil, hl1, hl2]; rfl
+  refine equiv_snoc hc hs fun i k hi hk => ?_
+  by_cases hka : k < a
+  · have := get_concatLast [] (sliceLast t 0 a) [sliceLast t a b] pre hi (k := k) (by rw [hl1]; exact hka)
+    simp only [List.map_nil, List.sum_nil, Nat.zero_add, List.nil_append] at this
+    rw [this, get_sliceLast hs 0 a hi hka, Nat.add_zero]
+  · have := get_concatLast [sliceLast t 0 a] (sliceLast t a b) [] pre hi (k := k - a) (by rw [hl2]; omega)
+    simp only [List.map_cons, List.map_nil, List.sum_cons, List.sum_nil, hl1, Nat.add_zero, List.cons_append,
+      List.nil_append] at this
+    rw [show a + (k - a) = k by omega] at this
+    rw [this, get_sliceLast hs a b hi (by omega), show k - a + a = k by omega]
+
+/-! ### Zeros -/
+
+/-- `Zeros._add`: `0 + g = g`. -/
+theorem zipWith_full_zero_add (add : α → α → α) (z : α) (hz : ∀ a, add z a = a) (b : Tensor α) :
+    zipWith add (full b.shape z) b ≃ₜ b :=
+  equiv_of_get (s := b.shape) rfl rfl fun idx h => by
+    rw [get_zipWith add (full b.shape z) b h, get_full _ _ h, hz]
+
+/-- `Zeros._multiply`: `0 * g = 0`. -/
+theorem zipWith_full_zero_mul (mul : α → α → α) (z : α) (hz : ∀ a, mul z a = z) (b : Tensor α) :
+    zipWith mul (full b.shape z) b ≃ₜ full b.shape z :=
+  equiv_of_get (s := b.shape) rfl rfl fun idx h => by
+    rw [get_zipWith mul (full b.shape z) b h, get_full _ _ h, hz]
+
+/-- `Zeros._sum`: `Sum(Zeros) = Zeros` (needs only `0 + 0 = 0`). -/
+theorem reduceLast_full_zero (add : α → α → α) (z : α) (hz : add z z = z) (s : List Nat) (n : Nat) :
+    reduceLast add z (full (s ++ [n]) z) ≃ₜ full s z := by
+  have hs : (full (s ++ [n]) z).shape = s ++ [n] := rfl
+  refine equiv_of_get (s := s) (shape_reduceLast add z hs) rfl fun pre hp => ?_
+  rw [get_reduceLast add z hs hp, get_full _ _ hp,
+    foldl_congr_mem (g := fun acc _ => add acc z) _ _ (fun acc k hk => by
+      rw [get_full _ _ (inBox_snoc hp (List.mem_range.1 hk))])]
+  exact foldl_const_unit add z z hz _
+
+/-- `Zeros._insertaxis` (last position), also the `iszero(length)` branch target shape of `InsertAxis._simplified`:
+inserting an axis into a constant tensor gives the constant tensor. -/
+theorem insertAxis_full (s : List Nat) (a : α) (n : Nat) : insertAxis (full s a) n ≃ₜ full (s ++ [n]) a :=
+  equiv_snoc (s := s) (n := n) rfl rfl fun pre k hp hk => by
+    rw [get_insertAxis (full s a) n hp hk, get_full _ _ hp, get_full _ _ (inBox_snoc hp hk)]
+
+/-- `Zeros._takediag` -/
+theorem takeDiag_full (s : List Nat) (a : α) (n : Nat) : takeDiag (full (s ++ [n, n]) a) ≃ₜ full (s ++ [n]) a := by
+  have hs : (full (s ++ [n, n]) a).shape = s ++ [n, n] := rfl
+  exact equiv_snoc (shape_takeDiag hs) rfl fun pre k hp hk => by
+    rw [get_takeDiag hs hp hk, get_full _ _ (inBox_snoc2 hp hk hk), get_full _ _ (inBox_snoc hp hk)]
+
+/-- `Zeros._take` -/
+theorem take_full (s : List Nat) (a : α) (n : Nat) (ind : Tensor Nat)
+    (hind : ∀ j, inBox ind.shape j = true → ind.get j < n) :
+    take (full (s ++ [n]) a) ind ≃ₜ full (s ++ ind.shape) a := by
+  have hs : (full (s ++ [n]) a).shape = s ++ [n] := rfl
+  exact equiv_append (shape_take hs ind) rfl fun pre suf hp hj => by
+    rw [get_take hs ind hp hj, get_full _ _ (inBox_snoc hp (hind suf hj)), get_full _ _ (inBox_app hp hj)]
+
+/-- `Zeros._diagonalize` (the off-diagonal fill is the same zero) -/
+theorem diagonalize_full (s : List Nat) (z : α) (n : Nat) :
+    diagonalize z (full (s ++ [n]) z) ≃ₜ full (s ++ [n, n]) z := by
+  have hs : (full (s ++ [n]) z).shape = s ++ [n] := rfl
+  exact equiv_snoc2 (shape_diagonalize z hs) rfl fun pre i j hp hi hj => by
+    rw [get_diagonalize z hs hp hi hj, get_full _ _ (inBox_snoc hp hi), get_full _ _ (inBox_snoc2 hp hi hj)]
+    simp
+
+/-- `Zeros._ravel` -/
+theorem ravel_full (s : List Nat) (x : α) (a b : Nat) : ravel (full (s ++ [a, b]) x) ≃ₜ full (s ++ [a * b]) x := by
+  have hs : (full (s ++ [a, b]) x).shape = s ++ [a, b] := rfl
+  refine equiv_snoc (shape_ravel hs) rfl fun pre k hp hk => ?_
+  have hb : 0 < b := by
+    cases b with
+    | zero => simp at hk
+    | succ b => omega
+  rw [get_ravel hs hp hk, get_full _ _ (inBox_snoc2 hp ((Nat.div_lt_iff_lt_mul hb).2 hk) (Nat.mod_lt _ hb)),
+    get_full _ _ (inBox_snoc hp hk)]
+
+/-- `Zeros._unravel` -/
+theorem unravel_full (s : List Nat) (x : α) (a b : Nat) :
+    unravel (full (s ++ [a * b]) x) a b ≃ₜ full (s ++ [a, b]) x := by
+  have hs : (full (s ++ [a * b]) x).shape = s ++ [a * b] := rfl
+  refine equiv_snoc2 (shape_unravel hs a b) rfl fun pre i j hp hi hj => ?_
+  have hk : i * b + j < a * b := by
+    calc i * b + j < i * b + b := by omega
+      _ = (i + 1) * b := by rw [Nat.add_mul, Nat.one_mul]
+      _ ≤ a * b := Nat.mul_le_mul_right _ hi
+  rw [get_unravel hs a b hp hi hj, get_full _ _ (inBox_snoc hp hk), get_full _ _ (inBox_snoc2 hp hi hj)]
+
+/-- `Zeros._transpose` -/
+theorem transpose_full (s : List Nat) (x : α) (p : List Nat) (hp : IsPerm p s.length) :
+    transpose (full s x) p ≃ₜ full (p.map fun a => s.getD a 0) x :=
+  equiv_of_get (s := p.map fun a => s.getD a 0) rfl rfl fun idx h => by
+    rw [get_transpose (full s x) p h, get_full _ _ h]
+    exact get_full _ _ (inBox_transposeSrc (sh := s) hp h)
+
+end laws
 
 end NutilsVerif.C01
